@@ -68,7 +68,9 @@ def main():
                "changes the parallel scheduler only where the unchanged code is already wrong (known finding), C11-19 changes only "
                "the diminished unisons b1/bb1 (-1 and -2 semitones, outside the stated sizes 0-11), C08-21 changes the roots "
                "that the recursive substitute() combines, of which the statement promises nothing (the four documented rules are "
-               "judged), see 0.3b), so "
+               "judged), C08-24 offers one harmonic substitute for VI instead of two (the statement speaks of what the returned ones "
+               "share with the original), C09-23 changes the analysis of a septuplet perturbed upward (outside the 1 % clause), "
+               "see 0.3b), so "
                "the report names the theorems that no longer check, as the brief prescribes." % (
                    n_rounds, 2 * n_rounds - 1, 2 * n_rounds, n_all - len(missed), n_all, n_conc, "" if not missed else "; not reported: " + ", ".join(missed) +
                    " (C15-15 makes chords.invert hand back the caller's own one-note list, which the statement of C15 does not forbid "
